@@ -38,7 +38,7 @@ reg('C17', 'model_checking',
 
 reg('C02', 'model_checking',
     'Full product of 21 signature kinds x 10 signing keys (RSA 1024/2048/3072, DSA 1024/2048, ECDSA P-256/384/521/secp256k1, Ed25519) x 6 hashes, '
-    'plus option sets (none, singles, all compatible pairs, all together; thorough: triples) and a subject alphabet (every octet, empty, line-ending '
+    'plus option sets (none, singles incl. subpackets of 192..255 and > 255 octets, all compatible pairs, all together; thorough: triples), documents searched so that the digest has leading zero / 0xFF / 0x01 octets for every signer, GnuPG 2.2.40 vectors, and a subject alphabet (every octet, empty, line-ending '
     'styles, UTF-8 user ids, image attributes, keys of every algorithm). Each PGPy-made signature is strict-parsed, verified by an independent RFC 4880 '
     '5.2.4 implementation from the received octets, re-imported and re-verified, and checked for the requested subpackets; each reference-made '
     'signature over the same space must verify under PGPy.',
@@ -72,7 +72,7 @@ reg('C03', 'model_checking',
     'ordering of (key, key, passphrase) triples with generated and supplied session keys; 0-2 signers; binary and armored transport. Every PGPy-made '
     'message is decrypted by PGPy with each recipient and by an independent RFC 4880/6637 decryptor (plaintext packets must equal the export); the same '
     'matrix plus foreign framings (old format, partial lengths, SKESK without session key, simple/salted/iterated S2K, marker packet, legacy tag 9) is '
-    'encrypted by the reference and must be decrypted by PGPy to the original.',
+    'encrypted by the reference and must be decrypted by PGPy to the original; ECDH recipients with non-default KDF parameters on 4 curves both ways; 60 GnuPG 2.2.40 messages.',
     'Trusted: refpgp.enc/msg (validated at setup against GnuPG-made fixture messages, protected fixture keys and RFC 3394 vectors); OpenSSL ECDH scalar '
     'multiplication and block primitives in ECB mode. Largest body 64 KiB in quick, 4 MiB in thorough.',
     'exhaustive configuration enumeration on the real encrypt/decrypt paths, differential against an independent implementation', 'DESIGN.md 2/C03')
@@ -80,7 +80,7 @@ reg('C03', 'model_checking',
 reg('C04', 'fault_enumeration',
     'Deviation-bounded fault enumeration on real integrity-protected messages: 0 faults (base must decrypt to the original) then every single fault of the '
     'alphabet - every bit of the encrypted-data packet and of the session-key packets, truncation at every offset (re-framed and raw), extensions, every '
-    'block swap / drop / duplication, block-aligned splices and MDC transplants between two messages under one session key, version / tag changes, every '
+    'block swap / drop / duplication, block-aligned splices and MDC transplants between two messages under one session key, version / tag changes, integrity-protected data re-framed as legacy tag 9 from every block boundary, every '
     'arrangement (<= 4) of the top-level packets, 12 wrong passphrases, every non-recipient key with and without rewritten recipient id - over cipher x '
     'recipient x body bases (~4e4 decryptions). Outcome must be an exception, the original plaintext, or a refusal that hands back no plaintext.',
     'RSA session-key packets: quick covers every bit of the fixed fields and of the first/last 8 octets of the integer, thorough every bit. Two messages '
@@ -100,7 +100,7 @@ reg('C06', 'model_checking',
     'explicit-state history search with crash-point enumeration on the real objects + exhaustive configuration enumeration vs. independent implementation', 'DESIGN.md 2/C06')
 
 reg('C13', 'model_checking',
-    'All operation sequences up to depth 3 (thorough 4) over a 14-operation menu of passphrase / key / multi-recipient encryptions and key protections '
+    'All operation sequences up to depth 3 (thorough 4) over a 15-operation menu of passphrase / key / multi-recipient (keys + passphrase, two passphrases) encryptions and key protections '
     '(identical arguments repeated), executed on the real code under an owned random source: a recording source (every session key, prefix, salt, IV found in '
     'the output by an independent decryptor must be a value drawn during that very operation, of the right size, never reused across the history, not '
     'constant, session key absent from the output) and two scripted labelled streams (every random field equals the stream value drawn in that operation, so '
@@ -112,9 +112,9 @@ reg('C13', 'model_checking',
 reg('C18', 'model_checking',
     'Product of 43 fixture keys (every algorithm / curve, plus keys whose public or secret integers have leading zero octets or odd sizes: 2047-bit modulus, '
     'e=3, short DSA y, EC coordinates and Ed25519 / Curve25519 points with a zero top or last octet) x 12 creation times (0, 1, DST edges, 2^31-1, 2^31, 2^32-1) '
-    'x 4 process time zones x producer (reference-encoded import; time set through the API as aware-UTC and aware non-UTC datetime; generated by PGPy) x 8 object '
+    'x 4 process time zones x producer (reference-encoded import; time set through the API as aware-UTC and aware non-UTC datetime; naive datetime; generated by PGPy) x 8 object '
     'forms (private, public twin, copy, binary / armored re-import, protected, unlocked, locked again); fingerprint and key id must equal SHA-1 over 0x99, '
-    'length and the exported public-key packet, which itself must equal the reference encoding; plus issuer / issuer-fingerprint / recipient ids written by PGPy.',
+    'length and the exported public-key packet, which itself must equal the reference encoding; plus ECDH keys with every non-default KDF parameter pair, fingerprints as printed by GnuPG 2.2.40 for its own keys, and issuer / issuer-fingerprint / recipient ids written by PGPy.',
     'The SHA-1 is computed by the reference from PGPy\'s exported packet and, independently, from the raw numbers. Intermediate creation times are covered at 12 boundary values.',
     'exhaustive enumeration of key x time x zone x form on the real code vs. RFC 4880 12.2', 'DESIGN.md 2/C18')
 
@@ -122,39 +122,39 @@ reg('C10', 'model_checking',
     'Every payload length 1..400 (thorough 1..3000) x 4 fills through the real Armorable.__str__ / ascii_unarmor with 3 header sets and 5 input forms (str, '
     'bytes, bytearray, CRLF, surrounded by other text), checked against an independent radix-64 / CRC-24 / armor-framing decoder (payload, label, <= 76 columns, '
     'headers, CRC); 9 real objects (public / private / large keys, literal / signed / encrypted messages, detached signature, cleartext message) x header sets x '
-    'forms; every (loader class, block kind) pair; and for 10 payloads every single-character substitution of the radix-64 body and CRC line by {next '
+    'forms; every (loader class, block kind) pair; and for 10 payloads (through ascii_unarmor) and 7 real armored objects (through the class a user loads them with) every single-character substitution of the radix-64 body and CRC line by {next '
     'alphabet character, =, space, !}: unless payload and CRC still agree PGPy must raise or emit the CRC warning.',
     'Trusted: refpgp.armor (bitwise CRC-24, own radix-64). Reading armor headers back is not part of the property and is not demanded.',
     'exhaustive enumeration + exhaustive single-character fault enumeration on the real armor codec', 'DESIGN.md 2/C10')
 
 reg('C11', 'model_checking',
-    'Every sequence of 0..3 lines over a 15-line adversarial alphabet x {LF, CRLF} x {final line end, none} (14 464 texts; thorough adds 4-line texts over a '
+    'Every sequence of 0..3 lines over a 20-line adversarial alphabet (dash / From / armor-looking lines, trailing space / tab / form feed / vertical tab / no-break space, embedded U+2028 / U+0085, non-BMP, 1000 characters) x {LF, CRLF} x {final line end, none} (33 682 texts; thorough adds 4-line texts over a '
     'reduced alphabet): PGPy writes the cleartext message, an independent RFC 4880 section 7 reader checks dash-escaping, the Hash header and un-escaping and '
     'verifies the signature over the 7.1 canonical text; PGPy reads its own output back (same text, same signatures, verifies); the reference writes and signs '
-    'the same text and PGPy must verify it; 6 hashes x 6 signer sets (Ed25519, RSA, ECDSA, DSA, two signers) on a slice.',
+    'the same text and PGPy must verify it; 6 hashes x 6 signer sets (Ed25519, RSA, ECDSA, DSA, two signers) on a slice; CRLF-armored files; GnuPG 2.2.40 cleartext vectors.',
     'Trusted: refpgp.armor / refpgp.sig. Texts containing a lone CR are excluded (RFC 4880 does not define whether it ends a line).',
     'exhaustive text enumeration on the real writer / reader / signer / verifier, differential against an independent implementation', 'DESIGN.md 2/C11')
 
 reg('C20', 'model_checking',
     'Product content (9: empty, ASCII, str / bytes UTF-8, all octets, CRLF, NULs, 64 KiB random; thorough 1 MiB) x format {auto, b, t, u} x file name {none, ASCII, '
     '_CONSOLE, non-ASCII, 255 octets, spaces} x compression (4); 0-3 signers of differing algorithms in every order at equal / increasing / decreasing times x '
-    'compression; sign-then-encrypt and encrypt-then-sign x recipients; every export is parsed by an independent RFC 4880 11.3 grammar recogniser (n one-pass '
+    'compression; sign-then-encrypt and encrypt-then-sign x recipients (and the export of the message decrypt() returns); every export is parsed by an independent RFC 4880 11.3 grammar recogniser (n one-pass '
     'packets, literal, n signatures, i-th one-pass packet describing the (n-1-i)-th signature, only the last flagged final, compression around the whole signed '
     'sequence, session-key packets then one container) and re-imported from binary and armor (content, name, time, format, compression, signature multiset); '
-    'reference-made messages in old-format / partial-length framing and reference compression are imported, verified and re-exported.',
+    'reference-made and GnuPG-made messages in old-format / partial-length framing and foreign compression are imported, verified and re-exported; returned content must equal the content put in.',
     'Trusted: refpgp.msg grammar recogniser and packet parsers (validated at setup against GnuPG-made fixture messages).',
     'exhaustive configuration enumeration on the real builder / exporter / importer vs. independent grammar recogniser', 'DESIGN.md 2/C20')
 
 reg('C15', 'model_checking',
-    'Breadth-first explicit-state search over key-management histories on real PGPKey objects: 20 operations (add identity / image, add signing / encryption '
-    'subkey, re-certify with new preferences, same-second re-certification, third-party certification, revoke identity / subkey / key, designated revoker, '
+    'Breadth-first explicit-state search over key-management histories on real PGPKey objects: 24 operations (add identity / image, add signing / encryption '
+    'subkey, re-certify with new preferences, same-second re-certification at the same and at another certification level, third-party certification exportable / local / issuer by key id only, third-party direct-key signature, revoke identity / subkey / key, designated revoker, '
     'direct-key signature, delete identity, protect, derive public key, copy, export-import) from Ed25519 / P-256 / RSA-2048 roots, every successor rebuilt by '
     'replaying the history on fresh objects under a virtual clock, deduplicated on a canonical export; a reference model runs in lock-step and in every state '
     'the invariant is evaluated on the private key, the public twin and the re-imported public key: every self-signature, binding, embedded cross-signature and '
     'revocation verifies under the reference and under key.verify(key); identities / subkeys / revocation placement equal the model; effective flags, '
     'preferences, primary mark and expiry equal the most recent self-certification; fingerprint unchanged; twin equals private key.',
     'Depth 3 (Ed25519), 2 (P-256, RSA) in quick; 4 / 3 / 2 in thorough. "Most recent" is restricted to self-certifications of non-revoked identities; same-second '
-    'ties accept any tied signature.',
+    'ties are won by the signature made last in the history.',
     'explicit-state BFS over operation histories on the real objects with a lock-step reference model', 'DESIGN.md 2/C15')
 
 reg('C07', 'model_checking',
@@ -170,7 +170,7 @@ reg('C14', 'model_checking',
     'Transferable keys written by an independent encoder over the shape product (1-3 user ids x image attribute x 0-2 subkeys of differing algorithms x 1-2 '
     'self-signatures x third-party certification {none, exportable absent / true / false} x identity revocation x {direct-key signature, designated revoker, key / '
     'subkey revocation} x equal creation times x interleaved trust packets x public / secret; quick takes every second element of the inner product, thorough all), '
-    'concatenations of 2-3 keys in every order, and every state of the key-history search: after import -> export (binary, then armored) fingerprint, key material, '
+    'concatenations of 2-3 of 5 keys (one of which certified two of the others) in every order, GnuPG-made keys, and every state of the key-history search: after import -> export (binary, then armored) fingerprint, key material, '
     'identities and the per-component multiset of exportable signatures are unchanged, every signature still verifies (reference and PGPy), non-exportable '
     'certifications and only those are dropped, and a copy exports identical octets.',
     'Signatures are compared by (type, algorithms, hashed area, integers), not by framing. Reference-made keys are first checked by the reference itself.',
@@ -178,18 +178,18 @@ reg('C14', 'model_checking',
 
 reg('C16', 'model_checking',
     'Reference-written RSA keys for the full product primary flag set (8) x 0..2 subkeys with flag sets {absent, C, S, E, Es, A, S+E, all, none} (728 '
-    'configurations), every (old flags, new flags) pair of a newer binding / self-certification on primary, first and second subkey, and every ordered pair of '
+    'configurations; thorough: three subkeys), every (old flags, new flags) pair of a newer binding / self-certification on primary, first and second subkey, and every ordered pair of '
     'flag sets on two identities selected with user=; on each: sign, certify, encrypt on the public and the private form (representative slice: all four forms '
-    'public / private / locked / unlocked x enforcement on / off), and one reference-encrypted message per component for decrypt. Oracle: refuses iff no '
-    'component is granted the capability by its most recent self-signature; otherwise the component named in the signature / session-key packet is granted it '
+    'public / private / locked / unlocked x enforcement on / off), and one reference-encrypted message per component for decrypt, alone and behind the session-key packets of other components. Oracle: refuses iff no '
+    'component is granted the capability by its most recent self-signature (enforcement off lifts only the refusal, not the delegation); otherwise the component named in the signature / session-key packet is granted it '
     'and really did the work (independent verifier under exactly that key, independent decryptor with exactly that secret).',
     'Components without a key-flags subpacket are don\'t-cares (RFC 4880: unrestricted; PGPy: grants nothing); the primary may always certify. All components are RSA '
     '(can do every operation) so that flags, not algorithms, decide.',
     'exhaustive configuration enumeration on the real API with a flag model and independent verifier / decryptor', 'DESIGN.md 2/C16')
 
 reg('C19', 'model_checking',
-    'Breadth-first explicit-state search over load / unload histories on the real PGPKeyring with a universe of 6 key objects (two keys sharing name, comment and '
-    'e-mail, one sharing only the e-mail, the public and private half of one key, a key with two subkeys): the clusters of keys that share identifiers are each '
+    'Breadth-first explicit-state search over load / unload histories on the real PGPKeyring with a universe of 8 key objects (two keys sharing name, comment and '
+    'e-mail, one sharing only the e-mail, the public and private half of one key, both halves of a key with two subkeys, a second object of one key), unload by selector and by held object: the clusters of keys that share identifiers are each '
     'explored to closure of the canonical state (model multiset + alias layout), the whole universe and blob loads (binary, armor, file, list) to a depth bound; in '
     'every state: fingerprints() under all 9 filter combinations, len, every fingerprint (with and without spaces), key id, short id, name, comment, e-mail of a '
     'loaded key is in the keyring and selects a loaded key carrying it, identifiers of unloaded-only keys select nothing, selection by signature and by message.',
